@@ -310,8 +310,12 @@ impl Scenario for Throttle {
         v.push(json!({"bound": 1, "high": 100000, "low": 0, "stall": 330, "grants": [33], "close_behind": true}));
         // fine mode: publishers may refill their queues while the I/O thread is draining them
         v.push(json!({"bound": 1, "high": 64, "low": 0, "stall": 260, "grants": [33], "fine": true}));
+        // ... with the high-water mark out of reach: no throttle cycle re-registers the queues, a
+        // queue that is left non-empty at the end of a wake-up is never looked at again
+        v.push(json!({"bound": 2, "high": 100000, "low": 0, "stall": 260, "grants": [33], "fine": true}));
         if tier == "thorough" {
             v.push(json!({"bound": 2, "high": 64, "low": 32, "stall": 260, "grants": [33], "fine": true}));
+            v.push(json!({"bound": 3, "high": 100000, "low": 0, "stall": 260, "grants": [33], "fine": true}));
         }
         v
     }
